@@ -462,6 +462,19 @@ class Interp:
         self.assign(t, v, module, env, depth)
     elif isinstance(target, ast.Subscript):
       base = self.eval(target.value, module, env, depth)
+      if isinstance(base, NdArr):
+        key = self._index_key(target.slice, module, env, depth)
+        if key is None or isinstance(value, Opaque):
+          raise NotInterpretable(f'store {ast.unparse(target)} into a known array with an unknown index / value')
+        try:
+          base.setitem(key, value)
+        except IndexError:
+          raise _Raise('IndexError', '', target)
+        except ValueError as e:
+          raise _Raise('ValueError', str(e), target)
+        except ndarr.NotModelled as e:
+          raise NotInterpretable(f'store {ast.unparse(target)}: {e}')
+        return
       if isinstance(target.slice, ast.Slice):
         sl = target.slice
         lo = self.eval(sl.lower, module, env, depth) if sl.lower else None
@@ -494,6 +507,19 @@ class Interp:
         base.touch()
     else:
       raise NotInterpretable(f'assignment target {ast.unparse(target)}')
+
+  def _index_key(self, sl, module, env, depth):
+    """The Python index object of a subscript (ints, slices, tuples of them); None when a part is unknown."""
+    if isinstance(sl, ast.Slice):
+      parts = [self.eval(x, module, env, depth) if x is not None else None for x in (sl.lower, sl.upper, sl.step)]
+      if any(isinstance(x, Opaque) for x in parts):
+        return None
+      return slice(*parts)
+    if isinstance(sl, ast.Tuple):
+      ks = [self._index_key(e, module, env, depth) for e in sl.elts]
+      return None if any(k is None for k in ks) else tuple(ks)
+    v = self.eval(sl, module, env, depth)
+    return None if isinstance(v, Opaque) else v
 
   # ----------------------------------------------------------- expressions
   def truth(self, v, tag: str) -> bool:
@@ -616,6 +642,16 @@ class Interp:
       return ev(node.orelse)
     if isinstance(node, ast.Subscript):
       base = ev(node.value)
+      if isinstance(base, NdArr) and (isinstance(node.slice, ast.Slice) or (isinstance(node.slice, ast.Tuple) and any(isinstance(e, ast.Slice) for e in node.slice.elts))):
+        key = self._index_key(node.slice, module, env, depth)
+        if key is None:
+          return Opaque('slice')
+        try:
+          return base.getitem(key)
+        except IndexError:
+          raise _Raise('IndexError', '', node)
+        except ndarr.NotModelled:
+          return Opaque('item')
       if isinstance(node.slice, ast.Slice):
         if isinstance(base, Opaque):
           return Opaque('slice')
@@ -646,7 +682,7 @@ class Interp:
           return Opaque('item')
       if isinstance(base, NdArr):
         try:
-          return base.index(key)
+          return base.getitem(key) if isinstance(key, tuple) else base.index(key)
         except IndexError:
           raise _Raise('IndexError', '', node)
         except ndarr.NotModelled:
@@ -898,6 +934,12 @@ class Interp:
       r = _np_scalar(fname.split('.', 1)[1], args)
       if r is not _NO:
         return r
+    if fname.split('.')[0] in ('np', 'numpy') and fname.split('.', 1)[-1] in ('full', 'zeros', 'ones', 'arange', 'searchsorted') \
+        and not any(isinstance(a, Opaque) for a in list(args) + list(kwargs.values())):
+      try:
+        return ndarr.np_create(fname.split('.', 1)[1], args, kwargs)
+      except ndarr.NotModelled:
+        return Opaque(f'call:{fname}')
     if fname in ('np.array', 'np.asarray', 'numpy.array', 'numpy.asarray') and len(args) == 1 and set(kwargs) == {'dtype'} \
         and isinstance(args[0], (list, tuple)) and all(isinstance(x, int) and not isinstance(x, bool) for x in args[0]) \
         and isinstance(kwargs['dtype'], Ext) and kwargs['dtype'].name in ('np.int32', 'np.int64'):
